@@ -140,6 +140,13 @@ func (s *searcher) parentReported(dir uint64, ino uint64, upto int) bool {
 				return true
 			}
 		}
+		// a directory (or a file that is still open) gets no record of its own when
+		// its entry goes; the harness noted which inode the operation of that step removed
+		for _, r := range s.x.Removed {
+			if r.Ino == ino && (r.Step == g.Step || r.Step == g.Step-1 || r.Step == g.Step+1) {
+				return true
+			}
+		}
 	}
 	return false
 }
